@@ -266,6 +266,8 @@ type Reply struct {
 	// ("Trailer:grpc-status"): a map key with a colon is not canonicalised by Header.Set, and net/http
 	// sends such a trailer like any other (HTTP/2 canonicalises the name, HTTP/1 field names are case-insensitive).
 	LowerCasePrefixTrailers bool
+	// EarlyTrailerKeys: these http.TrailerPrefix keys are set before WriteHeader, the others after the body.
+	EarlyTrailerKeys []string
 	// PrefixTrailersEarly sets the http.TrailerPrefix keys before WriteHeader instead of after the body.
 	PrefixTrailersEarly bool
 	// Informational != 0: the handler first calls WriteHeader with this 1xx status.
@@ -353,6 +355,22 @@ func WriteReply(w http.ResponseWriter, rep *Reply, errs *[]string) {
 			}
 		}
 	}
+	earlyKey := func(k string) bool {
+		for _, e := range rep.EarlyTrailerKeys {
+			if strings.EqualFold(e, k) {
+				return true
+			}
+		}
+		return false
+	}
+	if !rep.DeclaredTrailers && !rep.PrefixTrailersEarly {
+		// (a middleware stamps its trailer before calling the handler that adds the others at the end)
+		for k, v := range out.Trailer {
+			if earlyKey(k) {
+				h[http.TrailerPrefix+k] = append([]string(nil), v...)
+			}
+		}
+	}
 	if rep.PrefixTrailersEarly && !rep.DeclaredTrailers {
 		// (net/http: keys with TrailerPrefix may be set before or after WriteHeader)
 		for k, v := range out.Trailer {
@@ -411,7 +429,7 @@ func WriteReply(w http.ResponseWriter, rep *Reply, errs *[]string) {
 	for k, v := range out.Trailer {
 		if rep.DeclaredTrailers {
 			h[k] = append([]string(nil), v...)
-		} else if !rep.PrefixTrailersEarly {
+		} else if !rep.PrefixTrailersEarly && !earlyKey(k) {
 			if rep.LowerCasePrefixTrailers {
 				k = strings.ToLower(k)
 			}
